@@ -1,4 +1,5 @@
 import Swat4.Lemmas.StoreConsistent
+import Swat4.Lemmas.StoreDrv
 /-!
 # C10 — Storage indexes agree with the records after a crash at any point; every lock key carries an expiry
 
@@ -172,6 +173,19 @@ theorem consistentB_sound {st : RStore} (h : st.consistentB = true) : Consistent
 theorem consistentB_iff {st : RStore} :
     st.consistentB = true ↔ Consistent st ∧ ∀ e : Nat, e ∈ st.statusSet → e % 16 < 9 :=
   RStore.consistentB_iff
+
+/-- the model side of the C10 driver: every call of its runner (`Drv.runCall`: writer, queue / instance
+call or read; cut before / after any command, or not at all) leaves the model keyspace consistent,
+so every dump the driver renders from the model and compares the implementation's dump with is
+the dump of a consistent store -/
+theorem driver_runCall_consistent (s : Drv.SeqState) (h : Consistent s.st) (c : Drv.CallSpec) (crash : Drv.Crash) :
+    Consistent (Drv.runCall s c crash).1.st :=
+  Drv.runCall_consistent s h c crash
+
+/-- … and so does the driver's "all leases expire" item -/
+theorem driver_expire_consistent (st : RStore) (h : Consistent st) (ks : List Nat) (d : Bool) :
+    Consistent (ks.foldl (fun st k => st.lockExpire k d) st) :=
+  Drv.expireAll_consistent st h ks d
 
 /-! ## 6. non-vacuity -/
 
